@@ -726,6 +726,12 @@ def gen_sound(tier, seed, env_text, pid=None):
             ["int", "float", "bool", "NoneType", "bytes", "mtfx.shapes.A", "mtfx.shapes.B", "mtfx.shapes.C", "mtfx.shapes.D",
              "mtfx.shapes.E", "mtfx.shapes.X1", "mtfx.shapes.X2", "mtfx.shapes.Y1", "mtfx.shapes.Y2", "mtfx.shapes.MyList"],
             rng.randint(3, 8))] for _ in range(40 if q else 1000)], [0], ["DEFAULT", "RLU2", "MSCB", "RLU5"], [""])
+    # records that each fit the limit while their merge does not, under every CLI flag and rewriter (the limit binds the stub
+    # whatever else is asked for)
+    over = [[mk2("f0", dk("a", "b"), A("int")), mk2("f0", dk("a", "c"), A("int")), mk2("f0", dk("a", "d"), A("int"))],
+            [mk_call("f1", [C("list", dk("a", "b"))], dk("x")), mk_call("f1", [C("list", dk("c", "d"))], dk("y", "z", "w"))],
+            [{"f": "g0", "args": [A("int")], "ret": A("NoneType"), "ys": [dk("a", "b"), dk("c")]}, {"f": "g0", "args": [A("int")], "ret": A("NoneType"), "ys": [dk("d", "e")]}]]
+    add("records that fit the limit one by one and exceed it merged, every CLI flag", over, [2, 3], ["DEFAULT", "NONE"], FLAGS)
     # None observed next to more alternatives than a union may have - alternatives that have a common base class, or are
     # homogeneous tuples of several lengths - at a parameter WITHOUT a None default, as a return value and as a yielded value
     fam6 = [A("mtfx.shapes.A"), A("mtfx.shapes.B"), A("mtfx.shapes.C"), A("mtfx.shapes.D"), A("mtfx.shapes.B2"), A("mtfx.shapes.B3")]
